@@ -98,6 +98,7 @@ SHAPES = [
     "http://example.com:80", "http://example.com:080", "http://example.com:0", "http://example.com:", "https://EXAMPLE.com:443/A?B#C", "//example.com", "//u:p@example.com:81/p",
     "foo://:80/", "foo://u@:80/", "foo://u:p@/x", "mailto://u@:0", "//:", "//@", "//:@", "//@:?#", "foo://", "foo:///x", "http://[::1]", "http://[::1]:80/", "http://u:p@[fe80::1%eth0]:81/",
     "http://[2001:DB8:0:0:0:0:0:1]/", "svn://u@[vF.a:b]/P", "http://[v1.x]:81/", "http://é.com/é?é=é#é", "http://bücher.example:8080", "http://A_b.é/", "http://127.0.0.1:00080/",
+    "http://XN--MNCHEN-3YA.DE/p", "https://www.Xn--mnchen-3ya.de:443", "http://u:p@XN--80AAF8A3A.XN--J1AMH:8080/", "http://XN--ZZZ/", "http://xn--mnchen-3ya.de/", "//EXAMPLE.COM.", "http://[FE80::A%25ETH1]/",
     "", "/", "a", "a/b?c#d", "?q", "#f", "/a/../b", "http://h/a/../b/./c", "http://h/%2e%2E/x", "mailto:user@example.com", "foo:a:b", "http:x", "http:/x", "http://h?q", "http://h#f",
     "http://h/?a=1&a=2&b", "http://h/p?a=%FF&b=%E2%82", "http://h/a%2Fb/c%20d+e", "http://h/x.tar.gz", "http://h/.hidden", "http://h/a.", "http://h//", "http://h/a//b",
     "http://u%40x:p%3Ay@h/", "http://%C3%A9:%FF@h/", "http://h:65535/", "http://h/\udc80", "http://h/😀?😀#😀",
